@@ -58,7 +58,7 @@ func hessianStrings(ss ...string) []byte {
 func runDubbo(c *hx.Ctx) {
 	r := c.Rng.Fork()
 	proto := (&dubbo.XCodec{}).NewXProtocol(context.Background())
-	n := c.N(1500, 13000)
+	n := c.N(1500, 10000)
 	for i := 0; i < n; i++ {
 		var flag byte
 		isReq := r.Chance(55)
@@ -80,7 +80,7 @@ func runDubbo(c *hx.Ctx) {
 		status := byte(r.Pick([]int{20, 20, 20, 30, 31, 40, 50, 60, 70, 80, 90, 100, 0, 255}))
 		var id [8]byte
 		copy(id[:], r.Bytes(8))
-		big := r.Chance(10)
+		big := r.Chance(c.N(10, 6))
 		tail := pickLen(r, 70000)
 		if tail > 3000 && !big {
 			tail = r.Intn(200)
@@ -173,9 +173,9 @@ func thriftMessage(r *hx.Rng, ok bool, tail int) []byte {
 func runThrift(c *hx.Ctx) {
 	r := c.Rng.Fork()
 	proto := (&dubbothrift.XCodec{}).NewXProtocol(context.Background())
-	n := c.N(1500, 13000)
+	n := c.N(1500, 10000)
 	for i := 0; i < n; i++ {
-		big := r.Chance(10)
+		big := r.Chance(c.N(10, 6))
 		sl := r.Pick([]int{0, 1, 2, 12, 28, 254, 255, 256, 257, 65514, r.Intn(64)})
 		if sl > 3000 && !big {
 			sl = 5 + r.Intn(30)
@@ -289,10 +289,10 @@ var tarsInts = []int32{0, 1, 2, -1, 127, 128, -128, -129, 255, 256, 32767, 32768
 func runTars(c *hx.Ctx) {
 	r := c.Rng.Fork()
 	proto := (&tars.XCodec{}).NewXProtocol(context.Background())
-	n := c.N(1500, 13000)
+	n := c.N(1500, 10000)
 	for i := 0; i < n; i++ {
 		isReq := r.Chance(55)
-		big := r.Chance(10)
+		big := r.Chance(c.N(10, 6))
 		iv := int16(r.Pick([]int{1, 1, 3, 0, 2}))
 		pt := int8(r.Pick([]int{0, 0, 1}))
 		mt := tarsInts[r.Intn(len(tarsInts))]
